@@ -225,3 +225,34 @@ CONTRACTS.update(
         ),
     }
 )
+
+WSC = "(parser.whitespace, parser.carriage_return, parser.comment, parser.blank_line, parser.preprocessor)"
+HOMS["n_solid"] = dict(elem=ITEM, ctx=[], result="int", unit="(0 if isinstance(x, %s) else 1)" % WSC)
+
+CONTRACTS.update(
+    {
+        "vsg.vhdlFile.utils.token_is_whitespace_or_comment": dict(
+            types={"oToken": ITEM},
+            returns="bool",
+            ensures=[
+                "result == isinstance(oToken, %s)" % WSC,
+                # synthesis pragmas and delimited-comment delimiters are comments: layout look-around skips them too
+                "implies(isinstance(oToken, token.pragma.pragma), result)",
+                "implies(isinstance(oToken, token.delimited_comment.beginning) or isinstance(oToken, token.delimited_comment.ending), result)",
+            ],
+        ),
+        "vsg.vhdlFile.utils.find_next_non_whitespace_token": dict(
+            types={"iToken": "int", "lObjects": "list[%s]" % ITEM},
+            requires=["0 <= iToken"],
+            returns="int",
+            ensures=[
+                # the first token at or after iToken that is not white space, a comment, a pragma or a preprocessor line;
+                # how many of those lie in between does not matter
+                "result >= iToken",
+                "implies(result < len(lObjects) and not isinstance(lObjects[result], %s), n_solid(lObjects[iToken:result]) == 0)" % WSC,
+                "implies(not (result < len(lObjects) and not isinstance(lObjects[result], %s)), result == iToken and n_solid(lObjects[iToken:]) == 0)" % WSC,
+            ],
+            loops={1: dict(invariant=["n_solid(lObjects[iToken:iToken + _i]) == 0"])},
+        ),
+    }
+)
